@@ -28,6 +28,13 @@ def gen_cases(ctx):
                     g = rand_gate(rng, 4, [kind])
                     if len(g["cs"]) == nc or kind in ("CNOT", "Toffoli"): break
                 mk(4, [dict(g, g="op")])
+    # rotations and phases by exactly pi, -pi, pi/2, 2 pi, 0 under one and two controls: a controlled half turn is not the controlled Pauli
+    # gate (the phase between them is observable under the control)
+    for kind in ("RX", "RY", "RZ", "P"):
+        for ang in (math.pi, -math.pi, math.pi / 2, 2 * math.pi, 0.0):
+            for cs in ([1], [2, 0]):
+                mk(3, [{"g": "op", "kind": "H", "params": [], "ts": [q], "cs": []} for q in range(3)] + [{"g": "op", "kind": kind, "params": [float2bits(ang)], "ts": [[q for q in range(3) if q not in cs][0]], "cs": cs}])
+            mk(2, [{"g": "param", "kind": kind, "vals": [float2bits(ang)] * 3, "ts": [0], "cs": [1]}])
     # measurement groups in each basis at any position, with gates before and after
     for b in ("C", "X", "Y", "U"):
         for k in range(10 if b != "U" else 2 * len(us)):
